@@ -183,9 +183,16 @@ async def check_ahb(ctx, case):
             ctx.evaluation()
             ctx.count("is_valid_expression_calls")
 
+            use_tree = ctx.case_rng(case).random() < 0.4
+
             async def go2():
+                if use_tree:
+                    # the documented alternative input: an already parsed (and resolved) tree
+                    return await is_valid_expression(pout[1], _cer_var.set)
                 return await is_valid_expression(s, _cer_var.set)
 
+            if use_tree:
+                ctx.count("is_valid_expression_calls_with_tree")
             out = await sched.run_under(None, go2)
         finally:
             E.install()
